@@ -93,6 +93,8 @@ impl CaseA {
 pub struct ObsA {
     pub shapes: Vec<Shape>,
     pub incs: Vec<u64>,
+    /// the program allocated more than the configured --heap-size
+    pub exceeded: bool,
 }
 
 /// One in-process history check. Ok(observation) or Err((oracle, detail)).
@@ -146,7 +148,7 @@ pub fn check_a(case: &CaseA) -> Result<Option<ObsA>, (String, String)> {
             seen.insert(s, *i);
         }
     }
-    Ok(Some(ObsA { shapes: flagged.heap, incs }))
+    Ok(Some(ObsA { exceeded: case.size_mb > 0 && parsed.sizes.last().map(|s| *s > (case.size_mb as u64) << 20).unwrap_or(false), shapes: flagged.heap, incs }))
 }
 
 pub fn replay_a(v: &Value) -> Result<Option<(String, String)>, String> {
@@ -386,6 +388,7 @@ struct OutA {
     distinct: Vec<u64>,
     shapes: Vec<(Shape, u64)>,
     counted: u64,
+    exceeded: u64,
     records: u64,
     failing_with_records: u64,
     violation: Option<(CaseA, String, String)>,
@@ -401,6 +404,14 @@ pub fn run(seed: u64, tier: &str, ev: &mut Evidence) -> Vec<Violation> {
         let mut rng = Rng::for_case(seed, "C16", "workload", j as u64);
         let cfg = allocating_cfg(&mut rng);
         let (mut spec, mut allocs) = work::gen_source_spec(&mut rng, &cfg);
+        if j % 4 == 2 {
+            // one value far larger than the small heap sizes of the set: --heap-size must stay inert even when exceeded
+            if let ProgSpec::Stmts(v) = &mut spec {
+                let at = rng.usize_below(v.len() + 1);
+                v.insert(at, format!("let zzbig{} = array({}, 0)", j, rng.pick(&[70_000usize, 140_000, 300_000])));
+                allocs = allocs.map(|a| a + 1);
+            }
+        }
         if j % 9 == 4 {
             // a program that fails part-way: the log must hold exactly the allocations made before the failure
             if let ProgSpec::Stmts(v) = &mut spec {
@@ -413,7 +424,7 @@ pub fn run(seed: u64, tier: &str, ev: &mut Evidence) -> Vec<Violation> {
     }
     let outs: Vec<OutA> = par_map(specs.len(), |i| {
         let mut rng = Rng::for_case(seed, "C16", ENGINE_A, i as u64);
-        let mut out = OutA { evaluations: 0, distinct: vec![], shapes: vec![], counted: 0, records: 0, failing_with_records: 0, violation: None, sample: None };
+        let mut out = OutA { evaluations: 0, distinct: vec![], shapes: vec![], counted: 0, exceeded: 0, records: 0, failing_with_records: 0, violation: None, sample: None };
         let (spec, allocs) = &specs[i];
         let digest = digest_bytes(spec.source().unwrap_or_default().as_bytes());
         // every heap size of the set for a sample of programs, a random one for the rest
@@ -428,6 +439,7 @@ pub fn run(seed: u64, tier: &str, ev: &mut Evidence) -> Vec<Violation> {
                     }
                     out.records += o.shapes.len() as u64;
                     if allocs.is_some() { out.counted += 1; }
+                    if o.exceeded { out.exceeded += 1; }
                     if out.shapes.is_empty() {
                         let mut seen: Vec<&Shape> = Vec::new();
                         for (s, inc) in o.shapes.iter().zip(o.incs.iter()) {
@@ -450,12 +462,13 @@ pub fn run(seed: u64, tier: &str, ev: &mut Evidence) -> Vec<Violation> {
     let mut raw_a: Vec<(CaseA, String, String)> = Vec::new();
     let mut table: BTreeMap<Shape, (u64, usize)> = BTreeMap::new();
     let mut cross: Option<(usize, usize, Shape, u64, u64)> = None;
-    let (mut counted, mut records) = (0u64, 0u64);
+    let (mut counted, mut records, mut exceeded) = (0u64, 0u64, 0u64);
     for (i, o) in outs.into_iter().enumerate() {
         ev.evaluations += o.evaluations;
         for d in o.distinct { ev.distinct.insert(d); }
         counted += o.counted;
         records += o.records;
+        exceeded += o.exceeded;
         if let Some(s) = o.sample { if ev.samples.len() < 3 { ev.sample(s); } }
         if let Some(v) = o.violation { raw_a.push(v); }
         for (s, inc) in o.shapes {
@@ -470,6 +483,7 @@ pub fn run(seed: u64, tier: &str, ev: &mut Evidence) -> Vec<Violation> {
     }
     ev.count("layer_a.history_checks_with_allocation_count_known_by_construction", counted);
     ev.count("layer_a.A_records_checked_against_enumerated_heap", records);
+    ev.count("probe.layer_a.runs_allocating_more_than_heap_size", exceeded);
     ev.count("layer_a.distinct_shapes_in_increment_table", table.len() as u64);
     let mut violations: Vec<Violation> = Vec::new();
     if let Some((j, i, shape, a, b)) = cross {
@@ -508,6 +522,12 @@ pub fn run(seed: u64, tier: &str, ev: &mut Evidence) -> Vec<Violation> {
             if let ProgSpec::Stmts(v) = &mut spec {
                 let at = rng.usize_below(v.len() + 1);
                 v.insert(at, (*rng.pick(&["zz_undefined_variable", "array(3, 0)[3]", "(object begin end).nope()", "print(\"~ ~\\n\", 1)", "1 / 0"])).to_string());
+            }
+        }
+        if i % 4 == 2 {
+            if let ProgSpec::Stmts(v) = &mut spec {
+                let at = rng.usize_below(v.len() + 1);
+                v.insert(at, format!("let zzbig{} = array({}, 0)", i, rng.pick(&[70_000usize, 140_000, 300_000])));
             }
         }
         let case = CaseB {
